@@ -168,7 +168,9 @@ class Header:
             if i == len(ranks):
                 break
 
-            if loop_order.is_ready(
+            # Note: multiple ranks may become ready at the same position
+            # (e.g., if they are flattened together)
+            while i < len(ranks) and loop_order.is_ready(
                 part.get_final_rank_id(
                     output.get_init_ranks(), ranks[i]), pos):
                 final_pos[ranks[i]] = pos
